@@ -132,11 +132,11 @@ theorem catchUp_cases (log : List (DelOp α)) (B : Nat) (M : Seg α) :
   · rw [List.getElem?_eq_getElem h]
     by_cases hlt : log[M.cursor].op < B
     · right
-      show (if log[M.cursor].op < B then advance log B M else M) = advance log B M
-      rw [if_pos hlt]
+      show (if catchUpGuard log[M.cursor].op B = true then advance log B M else M) = advance log B M
+      rw [if_pos (by simpa using hlt)]
     · left; refine ⟨?_, Or.inr ⟨h, hlt⟩⟩
-      show (if log[M.cursor].op < B then advance log B M else M) = M
-      rw [if_neg hlt]
+      show (if catchUpGuard log[M.cursor].op B = true then advance log B M else M) = M
+      rw [if_neg (by simpa using hlt)]
   · rw [List.getElem?_eq_none h]
     left; exact ⟨rfl, Or.inl h⟩
 
